@@ -299,6 +299,11 @@ def run(fx, tier):
     from c04 import waiter_completion_rules
     v.rule('R-OWN', 'who may complete a parked reply handler, and with what')
     waiter_completion_rules(fx, v, 'C02')
+    # an acknowledgement that arrives before its write is reported complete is parked; it must neither be lost nor go stale (shared with C01)
+    from c01 import fast_reply_rules
+    if 'R-DOM' not in v.rules:
+        v.rule('R-DOM', 'parked acknowledgements: purged on exactly the paths that start a stream write, only by the writer; stored only by dispatch(); used once')
+    fast_reply_rules(fx, v, 'C02')
     v.expect_min('R-VALUES', 40, 'completion sites + raw I/O sites')
     v.expect_min('R-CGRAPH', 60, 'request-continuation paths')
     v.expect_min('R-FLOW', 10, 're-send paths')
